@@ -542,7 +542,7 @@ class Checker:
             if sorted(ev["allowed"]) != sorted(exp):
                 self.rej("C13.allowed-events", f"allowed_events {ev['allowed']} != {exp} in {self.state}")
             decl = [e for e in self.spec["events"] if e in exp]
-            if decl == exp:
+            if decl == exp and getattr(self, "check_allowed_order", True):
                 self.stats["allowed_order_compared"] = self.stats.get("allowed_order_compared", 0) + 1
                 if ev["allowed"] != exp:
                     self.rej("C13.allowed-events", f"allowed_events order {ev['allowed']} != declaration order {exp}")
